@@ -196,13 +196,35 @@ def check_self_walking_remove(chk, m, fn, L, N):
             chk.ob("N5.remove-through-found-position", sid, head_is_node and truthy and not stores,
                    "the node was found at list->head and is taken off by list_extract; the result reports the removal", loc, fn.name)
             continue
+        itrm = [c for c in calls if c.callee == "list_iterator_remove"]
+        if itrm and ret[0] == "c" and ret[2]:
+            # walks with the iterator API and removes through it: the iterator's current node must be the node asked for
+            segs_all = runs_of(m, fn)
+            cands = set()
+            for c, t, i in p.conds:
+                for x in paths.subexprs(c):
+                    if x[0] in ("sym", "call") and same(x, node):
+                        cands.add(x)
+            it = itrm[0].args[0]
+            k_rm = [k for k, e in enumerate(ev) if e is itrm[0]][0]
+            adv = [e for e in ev[:k_rm] if e.kind == "call" and e.callee in ("list_iterate", "list_iterator_next")
+                   and C02._is_cursor_of(e.res, it, s, segs_all, set())]
+            if adv:
+                # the iterator was moved on this segment: its current node is what the LAST move returned
+                ok = adv[-1].res in cands and not stores
+            else:
+                ok = any(x[0] == "sym" and C02._is_cursor_of(x, it, s, segs_all, set()) for x in cands) and not stores
+            chk.ob("N5.remove-through-found-position", sid, ok,
+                   "true is returned after list_iterator_remove on the iterator whose current node was found to be the node", loc, fn.name)
+            continue
         if ret[0] != "c":
             chk.unknown("N5.remove-through-found-position", sid, "list_remove returns %s, which is not a constant nor a recognised delegation" % fmt(ret)[:60], loc)
             continue
         if not ret[2]:
             at_end = any(strip_casts(c)[0] == "icmp" and strip_casts(c)[1] in ("eq", "ne") and ("null",) in strip_casts(c)[2:4]
                          and (strip_casts(c)[1] == "eq") == bool(t) and id(i) for c, t, i in p.conds)
-            chk.ob("N5.remove-through-found-position", sid, not stores and not [c for c in calls if isinstance(c.callee, str) and c.callee.startswith("list_")] and at_end,
+            mut = ("list_insert", "list_insert_sorted", "list_push", "list_extract", "list_remove", "list_iterator_remove", "list_iterator_insert")
+            chk.ob("N5.remove-through-found-position", sid, not stores and not [c for c in calls if c.callee in mut] and at_end,
                    "false is returned at a NULL link (end of the list) and without modifying the list", loc, fn.name)
             continue
         # ---- returns true: the unlink
